@@ -168,4 +168,47 @@ def runBatch (s : Script) : Out :=
             let log' := log ++ asy
             { early with log := log' ++ failRemaining n log', aborts := 2 }
 
+/-! ### the process controller of an in-process peer (`localProcess`, process.go `runInProcess`)
+
+Both reference servers are run this way.  Times are abstract ticks. -/
+
+/-- `exit = some t`: the function started by `runInProcess` returned at time t (`close(proc.done)`);
+`none`: it does not return before it is told to (a healthy server). -/
+structure LocalProc where
+  exit : Option Nat
+  deriving DecidableEq, Repr
+
+/-- `whenDone(action)` is `go func() { <-l.done; action(l.err) }()`: the time at which `action`
+runs — when the process has ended, never before, never if it does not end. -/
+def LocalProc.hookAt (p : LocalProc) : Option Nat := p.exit
+
+/-- `result()` called at time `now`: waits for `done` but gives up after the grace period:
+(time of the return, the process had ended). -/
+def LocalProc.result (p : LocalProc) (grace now : Nat) : Nat × Bool :=
+  match p.exit with
+  | some t => if t ≤ now + grace then (max t now, true) else (now + grace, false)
+  | none => (now + grace, false)
+
+/-- The `dies` of a fault script, from times: `runTestCasesForServer` registers
+`whenDone(func(error) { procCancel() })`, so `procCtx` is cancelled at `hook`; the send loop tests
+`procCtx.Err()` at time `checks[i]` before it hands out case i.  `some k`: k tests came before the
+cancellation (k ≥ number of cases: the loop never saw it). -/
+def diesOf (hook : Option Nat) (checks : List Nat) : Option Nat :=
+  hook.map fun h => (checks.takeWhile (· < h)).length
+
+/-! ### composition with the real client runner (C10)
+
+What the send loop sees of request i when the `clientRunner` is the real `clientProcessRunner`:
+`accepted` = `sendRequest` returned nil, `answer` = the response kind its callback carried (`none`:
+the callback carried an error, `failedToGetResultError`).  The callback comes from the reader
+goroutine. -/
+def caseOf (accepted : Bool) (answer : Option Kind) : Case :=
+  if accepted then .answer (answer.getD .noresult) true else .refuse
+
+/-- the `sync.WaitGroup` of the send loop for one attempted case: `Add(1)`, then `Done()` once per
+callback invocation and once more if `sendRequest` returned an error.  0 = balanced; a negative
+value is the panic "negative WaitGroup counter", a positive one a batch that never returns. -/
+def wgBalance (accepted : Bool) (callbacks : Nat) : Int :=
+  1 - (callbacks : Int) - (if accepted then 0 else 1)
+
 end ConfModel.ServerRunner
